@@ -12,7 +12,7 @@ from vlib import cfg, MV
 MANIFEST = dict(technique='TLA+ P-spec Ports + closed model MCPorts (TLC exhaustive); every transition of the TLC state graph replayed on ports.PortManager; real-width ephemeral-search cases and concurrent histories validated by TLC (trace validation / linearizability)',
         text='Exhaustive TLC over all reserve/release histories of the small configuration (Exclusive, frame properties), the k-bit model of the ephemeral loop, and conformance of the real PortManager to the same spec on every graph transition, on seeded ephemeral-search cases at real width and on racing goroutine histories linearized by TLC.',
         design='5 C10',
-        note='Constants: 2 nets, 1-2 transports, addrs {any,a,b}, ports {1,2}. Ephemeral offsets are sampled (seeded), not enumerated. math/rand seeding by the harness fixes the offset. Socket-level reservation lifecycle (bind/connect/close) is covered by the stack-level sweep when present in the evidence.')
+        note='Constants: 2 nets, 1-2 transports, addrs {any,a,b}, ports {1,2}. Ephemeral offsets are sampled (seeded), not enumerated. math/rand seeding by the harness fixes the offset. Socket-level reservation lifecycle (bind/connect/close) is covered by the stack-level sweep when present in the evidence. Bursts: 1 600 (quick) / 12 000 (thorough) histories in which five goroutines issue one operation each, released together by a spin barrier (mostly conflicting reservations of one port): a check-then-insert window in ReservePort is hit by construction rather than by luck.')
 
 SPEC = ['ports']
 NETS = ['n1', 'n2']
